@@ -364,7 +364,7 @@ def run_check(prop, tier, budget=None, runs=None, seed=None, workers=None, no_mi
         if cfg['engine'] in ('simp', 'simx', 'chain'):
             doc = {'property': prop, 'engine': cfg['engine'], 'kind': cfg['profile'].lower(), 'expect': s,
                    'detail': v['detail'], 'tag': 'seed=%d' % sd}
-            for k in ('input', 'loop', 'mode', 'sizes', 'sched', 'expected', 'case'):
+            for k in ('input', 'loop', 'mode', 'sizes', 'sched', 'expected', 'case', 'expects', 'strict'):
                 if k in v:
                     doc[k] = v[k]
             mod = simp_module(doc)
